@@ -444,7 +444,9 @@ def scoped_strings(rng, count):
             if qs:
                 q = rng.choice(qs); inner = dict(q["a"]); q["a"] = H(rng.choice(gen.QUANT), q["v"], inner)
         elif x < 0.45:
-            t = rng.choice(nodes); t.clear(); t.update(P(rng.choice(["c", "A", "x", "a_"])))
+            # not network variables: other names, names of the symbolic encoding (spare copies, parameter variables),
+            # case variants of the constants (legal proposition NAMES, but not variables of this network)
+            t = rng.choice(nodes); t.clear(); t.update(P(rng.choice(["c", "A", "x", "a_", "a_extra_0", "b_extra_1", "a_extra_2", "f_a", "TRUE", "fAlse"])))
         out.append(synprops.render_min(f, rng) if rng.random() < 0.5 else gen.render(f))
     return out
 
@@ -512,6 +514,35 @@ def run_c07(tier, seed, replay):
                           cov={"rule": "all trees up to a size bound over variable names colliding with the internal ones (x, xx, y), and seeded random formulae with injected binding errors; accepted <=> WellScoped and known propositions; result = Scope.Rename, alpha-equivalent (de Bruijn), depth-named, idempotent"})
 
 
+def scope_skeleton_batch(rng):
+    """Formulae over ONE skeleton - an outer binder (or two) around a conjunction of sibling binders - that differ only in
+    WHICH variable the leaves mention: the outer variable first met inside an inner scope, the sibling's own variable,
+    a second outer variable after the first sibling has closed.  Their sub-formulae are alpha-equivalent exactly when
+    the leaves agree, which a canonical form must reflect (and its renaming must stay injective on free variables)."""
+    un = lambda v: U(rng.choice(["AX", "EF", "AG", "AF", "EX"]), V(v))
+    outer = rng.choice([["o1"], ["o1", "o2"]])
+    out = []
+    ops = [rng.choice(["and", "or", "EU"]) for _ in range(3)]
+    qs = [rng.choice(["exists", "bind", "forall"]) for _ in range(4)]
+    shape = rng.randrange(3)
+    for _ in range(rng.choice([2, 3])):
+        pick = lambda pool: rng.choice(pool)
+        inner1 = H(qs[0], "i", B(ops[0], un("i"), un(pick(outer))))             # outer variable first met inside scope i
+        if shape == 0:
+            inner2 = H(qs[1], "i", un(pick(["i"] + outer)))                      # sibling binder: own or outer variable
+            body = B(ops[1], inner1, inner2)
+        elif shape == 1:
+            body = B(ops[1], inner1, un(pick(outer)))                            # new free occurrence after the scope closed
+        else:
+            inner2 = H(qs[1], "j", B(ops[2], un("j"), un(pick(outer))))
+            body = B(ops[1], inner1, B(ops[2], inner2, un(pick(outer))))
+        f = body
+        for v in reversed(outer):
+            f = H(qs[2], v, f)
+        out.append(f)
+    return out
+
+
 def run_c09(tier, seed, replay):
     import semprops
     rng = random.Random(seed * 7919 + 9)
@@ -525,6 +556,8 @@ def run_c09(tier, seed, replay):
             batch = semprops.overlapping_batch(rng, fg, rng.randint(1, 3))
             batch = [f for f in batch if gen.size(f) <= 16] or [fg.gen(6)]
             items.append({"id": "c%d" % i, "kind": "canon", "kinds": ["c09canon", "c09dups"], "texts": [gen.render(f) for f in batch]})
+        for i in range(400 if tier == "thorough" else 80):
+            items.append({"id": "k%d" % i, "kind": "canon", "kinds": ["c09canon", "c09dups"], "texts": [gen.render(f) for f in scope_skeleton_batch(rng)]})
     extra = None
     if not replay:
         g, d = common.mode_a("MC_Scope.tla", "MC_Scope.cfg", common.workdir("C09-%s-model" % tier), env={"SCOPE_N": "4" if tier == "thorough" else "3"})
